@@ -79,13 +79,28 @@ def pageHeader (unc comp crc numValues : Nat) (stats : Option PageStats) : Bytes
 
 def strBytes (s : String) : Bytes := s.toUTF8.toList
 
+/-- the column loop of `build_file_metadata`: `if (col->logical_type.id != CARQUET_LOGICAL_UNKNOWN)
+{ elem->has_logical_type = true; elem->logical_type = col->logical_type; }` where `col->logical_type` is
+the caller's struct (`add_column_internal`: `if (logical_type) col->logical_type = *logical_type;` on a
+zero-filled definition, i.e. id UNKNOWN for a NULL pointer).  Neither `converted_type` nor the
+SchemaElement's own `scale` / `precision` (fields 6, 7, 8) are ever set by the writer. -/
+def colLogical (c : Col) : Option ThriftParquet.LogicalType :=
+  match c.logical with
+  | none => none
+  | some .unknown => none
+  | some lt => some lt
+
+/-- the schema element `build_file_metadata` makes for one column -/
+def schemaElementOfCol (c : Col) : ThriftParquet.SchemaElement :=
+  { type := some c.ptype.code, typeLength := c.typeLen, repetition := some c.rep.code,
+    name := some (strBytes c.name), logicalType := colLogical c }
+
 /-- `build_file_metadata` + `flush_row_group`'s chunk metadata as the Thrift structures -/
 def fileMetaData (f : FooterData) : ThriftParquet.FileMetaData :=
   { version := 2,
     schema :=
       ({ name := some (strBytes "schema"), numChildren := f.cols.length } : ThriftParquet.SchemaElement) ::
-      f.cols.map (fun c => ({ type := some c.ptype.code, typeLength := c.typeLen, repetition := some c.rep.code,
-                               name := some (strBytes c.name) } : ThriftParquet.SchemaElement)),
+      f.cols.map schemaElementOfCol,
     numRows := f.numRows,
     rowGroups := f.rowGroups.map (fun g =>
       ({ columns := g.chunks.map (fun ch =>
